@@ -1,12 +1,14 @@
 /- Driver.lean — line protocol: one JSON case per line in, one JSON verdict per line out -/
 import PjVerif.Drive.Cal
 import PjVerif.Drive.Graph
+import PjVerif.Drive.Sched
 open Lean Pj.Drive
 
 def dispatch (j : Json) : Json :=
   match jStr (fld j "fam") with
   | "cal" => runCal j
   | "graph" => runGraph j
+  | "sched" => runSched j
   | f => mkObj [("id", fld j "id"), ("error", .str s!"unknown family {f}")]
 
 def main : IO Unit := do
